@@ -77,6 +77,14 @@ def directed_bases():
           "do top u1.wait_read h10"]
     u += ["do top u0.wait_write h7", "do top u0.recv h6 cap=100", "do top run", "end"]
     out.append("\n".join(u) + "\n")
+    # the same with two bystander timers at 120 ms and 160 ms: boundaries INSIDE the window in which the
+    # deferred wait is still outstanding (its timer fires at 204 ms) while the socket already counts as
+    # writable again (from 104 ms on) - a new wait-for-write there completes at once and must abort the old one
+    u2 = [x for x in u]
+    u2[0] = "== bd_udpw2"
+    k = u2.index("do top u0.wait_write h7")
+    u2[k:k] = ["do top t8.expires_after 120000000", "do top t8.wait h20", "do top t9.expires_after 160000000", "do top t9.wait h21"]
+    out.append("\n".join(u2) + "\n")
     out.append("\n".join(["== bd_accnew"] + hdr + [
         "do top a0.new n1", "do top a0.open v4", "do top a0.bind 0.0.0.0:7000", "do top a0.listen",
         "do top a0.accept_new s5 h0",
@@ -216,6 +224,7 @@ def directed_bases():
 # directed base -> groups (objects whose every intervention is run, (first, last) after-handler boundary s<k>,
 # (first, last) after-clock-step boundary a<k>); one range = the same numbers for both kinds
 DIRECTED = {"bd_udpw": [(["u0"], (1, 3)), (["u2", "u3"], (1, 2))],
+            "bd_udpw2": [(["u0"], (324, 325), (3, 4))],
             "bd_accnew": [(["a0"], (1, 5))], "bd_accep": [(["a0"], (1, 5)), (["s0"], (8, 10))], "bd_acc": [(["a0"], (1, 4))],
             "bd_res": [(["r0"], (1, 7))],
             # s0: peer of the pending accept (1..4, never destroyed there), then a read on the accepted side of an
